@@ -359,6 +359,45 @@ class _FrozensetSub(frozenset):
     __hash__ = frozenset.__hash__
 
 
+class _ReprRaises:
+    def __repr__(self):
+        raise RuntimeError("this object cannot be shown")
+
+
+class _ReprNotStr:
+    def __repr__(self):
+        return 42
+
+
+class _StrRaises:
+    def __str__(self):
+        raise RuntimeError("no text for this object")
+
+
+class _ClaimsToBeInt:
+    __class__ = int  # isinstance(x, int) is True, type(x) is not int
+
+
+class _GetattrRaises:
+    def __getattr__(self, name):
+        raise RuntimeError(f"no attribute lookups here ({name})")
+
+
+class _BoolRaises:
+    def __bool__(self):
+        raise RuntimeError("neither true nor false")
+
+    def __len__(self):
+        raise RuntimeError("no length")
+
+
+class _EqRaises:
+    __hash__ = object.__hash__
+
+    def __eq__(self, other):
+        raise RuntimeError("not comparable")
+
+
 def _named(name: str, base=object):
     return type(name, (base,), {})
 
@@ -426,6 +465,14 @@ def unsupported_leaves():
         ("module", lambda: struct, True),
         ("exception", lambda: ValueError("x"), True),
         ("slice", lambda: slice(1, 2), False),
+        # objects that misbehave when looked at: the rejection must not depend on showing, comparing or probing them
+        ("repr_raises", _ReprRaises, True),
+        ("repr_returns_non_str", _ReprNotStr, True),
+        ("str_raises", _StrRaises, True),
+        ("claims_to_be_int", _ClaimsToBeInt, True),
+        ("getattr_raises", _GetattrRaises, True),
+        ("bool_and_len_raise", _BoolRaises, True),
+        ("eq_raises", _EqRaises, True),
     ]
     # user classes whose __name__ collides with a serializer method name
     for nm in ("int", "str", "list", "bool", "NoneType", "Channel", "long", "float", "bytes",
